@@ -64,6 +64,14 @@ pub fn range_hist(case: &Value, mode: &str, rep: &mut Report) {
               for h in &hist { let _ = g!("get_compressed", a.get_compressed()); let _ = g!("encode_symbol", a.enc(h[0] as usize, &slot_cdf(h[0] as usize, h[1], h[2]), 1)); let _ = g!("get_compressed", a.get_compressed()); }
               let w2 = g!("into_compressed", a.into_compressed());
               if decode_all(&w2, rep, "round trip with temporary views between symbols").is_none() { return; } }
+            // clear() gives back a fresh encoder, whatever situation the encoder was in (also with words held back)
+            { let mut a = enc.clone_box(); g!("clear", a.clear());
+              rep.checks += 1;
+              if !g!("is_empty", a.is_empty()) { bad(rep, "encoder not empty after clear()".into()); }
+              for h in &hist { let _ = g!("encode_symbol", a.enc(h[0] as usize, &slot_cdf(h[0] as usize, h[1], h[2]), 1)); }
+              let w3 = g!("into_compressed", a.into_compressed());
+              if w3 != words { if enc.raw().sit_n > 0 { rep.class("clear_while_inverted"); } bad(rep, format!("after clear() (encoder was in situation {:?}) the same message seals to {:?} instead of {:?}", (enc.raw().sit_n, enc.raw().sit_w), w3, words)); return; }
+              if enc.raw().sit_n > 0 { rep.class("clear_while_inverted"); } }
             // into_decoder is the same thing
             let mut d2 = g!("into_decoder", enc.clone_box().into_decoder());
             for (i, h) in hist.iter().enumerate() {
